@@ -527,6 +527,16 @@ func (x *Exec) externalArgsFrame(args []ssa.Value, loop map[*ssa.BasicBlock]bool
 		} else if fn, ok := a.(*ssa.Function); ok {
 			frame.union(x.prog.writeSet(fn))
 		}
+		if mi, ok := a.(*ssa.MakeInterface); ok {
+			// a pointer handed over inside an interface value (yaml.Unmarshal(data, &v), json.NewDecoder(r).Decode(&v),
+			// fmt.Fprintf(w, ...)): the external callee may write through it just as well
+			if _, isPtr := mi.X.Type().Underlying().(*types.Pointer); isPtr {
+				if x.objectHavoc {
+					continue // the call rule havocs exactly the object pointed to
+				}
+				a = mi.X
+			}
+		}
 		switch u := a.Type().Underlying().(type) {
 		case *types.Pointer:
 			if root, ok := rootAlloc(a); ok && !root.Heap {
@@ -650,7 +660,9 @@ func (x *Exec) callStatic(st *State, in ssa.Instruction, c *ssa.CallCommon, fv *
 	x.abstr[shortFuncName(key)] = true
 	frame := NewFrameSet()
 	cells := map[*ssa.Alloc]bool{}
+	x.objectHavoc = !fnInModule(f)
 	x.calleeFrame(f, c.Args, nil, cells, frame)
+	x.objectHavoc = false
 	if f.Parent() != nil || len(fv.Bind) > 0 {
 		// closure: may write the captured cells it stores to
 		for i, b := range fv.Bind {
@@ -661,6 +673,22 @@ func (x *Exec) callStatic(st *State, in ssa.Instruction, c *ssa.CallCommon, fv *
 	}
 	// pointer arguments to uncontracted callees: havoc what they point to
 	for i, a := range args {
+		if !fnInModule(f) && i < len(c.Args) {
+			if mi, ok := c.Args[i].(*ssa.MakeInterface); ok {
+				if _, isPtr := mi.X.Type().Underlying().(*types.Pointer); isPtr {
+					// a pointer inside an interface value (proto.Unmarshal(data, msg), yaml.Unmarshal(data, &v)): the
+					// callee may write the object it points to - that object, not every object of its type
+					if p, ok := x.get(st, mi.X).(*Ptr); ok {
+						x.havocPointee(st, p)
+					} else {
+						pf := NewFrameSet()
+						x.prog.addPointeeWrites(pf, mi.X.Type().Underlying().(*types.Pointer).Elem(), -1)
+						frame.union(pf)
+					}
+					continue
+				}
+			}
+		}
 		if p, ok := a.(*Ptr); ok && (p.Cell != nil || len(p.Path) > 0) {
 			if fnInModule(f) {
 				// module callee: its write set tells whether the pointee type is written
